@@ -9,21 +9,11 @@ def register(K):
     K.fieldsof("fickle.Opcode", arg="val", pos="val", _data="val")
     K.fieldsof("fickle.StackedPickle", pickled="tuple[fickle.Pickled]")
 
-    # DUMPS: the serialised form as a function of the opcode list value and the opcode objects' encodings (ghost, see C06/C14)
-    DUMPS = z3.Function("DUMPS", z3.ArraySort(Int, Val), z3.ArraySort(Int, SeqV), z3.ArraySort(Int, Val), z3.ArraySort(Int, Val), Int, Bytes)
-
-    @K.spec("DUMPS")
-    def dumps_spec(eng, st, p):
-        return V("bytes", DUMPS(st.comp("fickle.Pickled._opcodes", Val), st.comp("list.items"), st.comp("fickle.Opcode._data", Val),
-                                st.comp("fickle.Opcode.arg", Val), eng.as_ref(p, st)))
-
     # PARSED(stream content at entry) — the bytes of the first pickle in the stream when load was called
     K.contract("fickle.Pickled.load", params="pickled: val", returns="fickle.Pickled",
                may_raise=["fickle.PickleDecodeError", "NotImplementedError", "Exception"],
                effects=["read(arg)", "seek(arg)"],
-               ensures=["fresh_since_entry(result)", "DUMPS(result) == FIRST_PICKLE_AT_CALL(pickled)"])
-    K.contract("fickle.Pickled.dumps", params="self: fickle.Pickled", returns="bytes", pure=True,
-               ensures=["result == DUMPS(self)"])
+               ensures=["fresh_since_entry(result)", "DUMPS(result) == FIRST_PICKLE_AT_CALL(pickled)", "inv(result)", "caches_clear(result)"])
     K.contract("fickle.StackedPickle.load", params="pickled: val", returns="fickle.StackedPickle",
                may_raise=["fickle.PickleDecodeError", "NotImplementedError", "Exception"], effects=["read(arg)", "seek(arg)"],
                ensures=["fresh_since_entry(result)"])
